@@ -137,7 +137,14 @@ func metricEngine(seed uint64, tier string, _ []string) {
 	target := r.bytes(20)
 	var pool []amiT
 	ips := [][]byte{{1, 2, 3, 4}, {1, 2, 3, 5}, {0, 0, 0, 0, 0, 0, 0, 0, 0, 0, 0xff, 0xff, 1, 2, 3, 4}, r.bytes(16), {9, 9, 9, 9}, nil}
-	poolIDs := [][]byte{nil, target, ids[3], ids[4], ids[9], pick(), pick()}
+	// extremes relative to the target: the target itself (distance 0) and its bitwise complement
+	// (distance 2^160-1), next to id-less candidates
+	far := make([]byte, 20)
+	for i := range far {
+		far[i] = ^target[i]
+	}
+	poolIDs := [][]byte{nil, target, far, ids[3], ids[4], ids[9], pick(), pick()}
+	pool = append(pool, mkAmi(ips[0], 1, far), mkAmi(ips[0], 1, nil), mkAmi(ips[1], 6881, far), mkAmi(ips[0], 0, nil))
 	for len(pool) < 24 {
 		ip := ips[r.intn(len(ips))]
 		id := poolIDs[r.intn(len(poolIDs))]
